@@ -29,7 +29,8 @@ const int REPROC_SIGTERM = 143, REPROC_SIGKILL = 137;
 /* contracts of the two quoting functions, over a ghost table of sizes */
 static size_t gsz[VERIF_NARGS];
 static const char *garg[VERIF_NARGS];
-#define SZ_OF(a) ((a) == garg[0] ? gsz[0] : (a) == garg[1] ? gsz[1] : gsz[VERIF_NARGS - 1])
+#define VERIF_IDX(k) ((k) < VERIF_NARGS ? (k) : VERIF_NARGS - 1)
+#define SZ_OF(a) ((a) == garg[0] ? gsz[0] : (a) == garg[VERIF_IDX(1)] ? gsz[VERIF_IDX(1)] : (a) == garg[VERIF_IDX(2)] ? gsz[VERIF_IDX(2)] : gsz[VERIF_NARGS - 1])
 static size_t argument_escaped_size(const char *argument)
   __CPROVER_assigns()
   __CPROVER_ensures(__CPROVER_return_value == SZ_OF(argument));
